@@ -13,5 +13,6 @@ import LasModel.Audit.C03
 import LasModel.Audit.C04
 import LasModel.Audit.C05
 import LasModel.Audit.C06
+import LasModel.Audit.C19
 import LasModel.Model.Date
 import LasModel.Driver.Main
